@@ -102,10 +102,36 @@ def gen_c01(r, n):
     return cases
 
 
+def gen_statuscheck(r):
+    """(order, prev, cur) for the real StatusCheckExecutor: every StepActionOrder, every status pair,
+    every ordered pair of post-step action classes, along-step action kept / changed / missing"""
+    order = r.choice([0, 1, 2, 3, 4, 4, 5, 6, 7, 7, 7, 8, 9, 9, 10, 11, 11, 11, 12, 13])
+    ps = r.choice([0, 1, 2, 2, 3, 4])
+    c = r.random()
+    cs = ps if c < 0.4 else r.choice([0, 1, 2, 2, 3, 4, 4])
+    pp = r.choice([-1, 0, 1, 2, 2, 3, 4, 5, 6])
+    cp = pp if r.random() < 0.25 else r.choice([-1, 0, 0, 1, 2, 2, 3, 4, 5, 6, 6])
+    inf = int(r.random() < (0.5 if cp < 0 else 0.1))
+    pa = r.choice([-1, 0, 1, 1])
+    ca = pa if r.random() < 0.7 else r.choice([-1, 0, 1])
+    # params.orders[invalid id] is read out of bounds by the C++ when the new action is
+    # invalid, the step infinite and the previous action valid: keep away from that read
+    if cp < 0 and inf and pp >= 0 and order > 4 and order != 13 and cs != 0:
+        inf = 0
+    return dict(order=order, ps=ps, pp=pp, pa=pa, cs=cs, inf=inf, cp=cp, ca=ca)
+
+
 def gen_c05(r, n):
     cases = []
     for i in range(n):
-        k = ["steplimit", "update", "propagate", "msc", "ifail", "propagate", "physlimit", "physlimit"][i % 8]
+        k = ["steplimit", "update", "propagate", "msc", "ifail", "propagate", "physlimit", "physlimit", "statuscheck", "statuscheck", "errored"][i % 11]
+        if k == "errored":
+            cases.append((k, dict(status=r.choice([1, 2, 2, 3]), pclass=r.choice([0, 0, 1, 2, 3, 4, 5]),
+                                  step=r.choice([0.0, 10 ** r.uniform(-6, 2), math.inf]))))
+            continue
+        if k == "statuscheck":
+            cases.append((k, gen_statuscheck(r)))
+            continue
         if k == "physlimit":
             pid = r.choice([0, 1, 1, 2, 2, 3, 3, 4])
             emax = {0: 50.0, 1: 9.0, 2: 9.0, 3: 9.0, 4: 50.0}[pid]
@@ -207,6 +233,10 @@ def harness_line(k, c):
         return "propagate %d %s %s %d %d" % (c["pclass"], fx(c["step0"]), fx(c["dist"]), int(c["boundary"]), int(c["can_loop"]))
     if k == "msc":
         return "msc %d %s" % (len(c["seq"]), " ".join("%s %d %s %s" % (fx(p_), int(a), fx(t), fx(g)) for p_, a, t, g in c["seq"]))
+    if k == "errored":
+        return "errored %d %d %s" % (c["status"], c["pclass"], fx(c["step"]))
+    if k == "statuscheck":
+        return "statuscheck %d %d %d %d %d %d %d %d" % (c["order"], c["ps"], c["pp"], c["pa"], c["cs"], c["inf"], c["cp"], c["ca"])
     if k == "steplimit":
         return "steplimit %s %d %d %s" % (fx(c["s0"]), c["c0"], len(c["seq"]), " ".join("%s %d" % (fx(s), a) for s, a in c["seq"]))
     if k == "update":
@@ -263,6 +293,16 @@ def model_expr(k, c, o):
         return "run_propagate %s %s %s %s" % (zlit(c["pclass"]), hexf(c["step0"]), hexf(c["dist"]), b(c["boundary"]))
     if k == "msc":
         return "run_msc [%s]" % "; ".join("(%s, %s, %s, %s)" % (hexf(p_), b(a), hexf(t), hexf(g)) for p_, a, t, g in c["seq"])
+    if k == "errored":
+        return "run_errored %s %s %s" % (zlit(c["status"]), zlit(c["pclass"]), hexf(c["step"]))
+    if k == "statuscheck":
+        ids = [o[1 + 2 * j] for j in range(9)]
+        tbl = "[" + "; ".join("(%s, %s)" % (zlit(o[1 + 2 * j]), zlit(o[2 + 2 * j])) for j in range(9)) + "]"
+        pid = lambda cl: -1 if cl < 0 else ids[cl]
+        aid = lambda cl: -1 if cl < 0 else ids[7 + cl]
+        return "run_statuscheck %s %s %s %s %s %s %s %s %s" % (
+            tbl, zlit(c["order"]), zlit(c["ps"]), zlit(pid(c["pp"])), zlit(aid(c["pa"])), zlit(c["cs"]), b(c["inf"]),
+            zlit(pid(c["cp"])), zlit(aid(c["ca"])))
     if k == "steplimit":
         seq = "[" + "; ".join("(%s, %s)" % (hexf(s), zlit(a)) for s, a in c["seq"]) + "]"
         return "run_steplimit %s %s %s" % (hexf(c["s0"]), zlit(c["c0"]), seq)
@@ -296,6 +336,10 @@ def impl_view(k, c, o):
         return [o[0], o[1]]
     if k == "msc":
         return [[bool(o[3 * i]), o[3 * i + 1], o[3 * i + 2]] for i in range(len(c["seq"]))]
+    if k == "errored":
+        return [o[0], o[1], o[2]]
+    if k == "statuscheck":
+        return [o[0]]
     if k == "steplimit":
         n = len(c["seq"])
         return [[bool(o[3 * i]), o[3 * i + 1], o[3 * i + 2]] for i in range(n)]
@@ -374,6 +418,22 @@ def oracle(k, c, o):
                 return "MSC not applicable on step %d (physics limit %r) but apply_step was called / step length became %r" % (i, phys, fin)
             if fin > phys:
                 return "step %d longer than its pre-step limit after MSC: %r > %r" % (i, fin, phys)
+    if k == "errored":
+        if o[0] != 3 or o[1] != 3 or o[3] != 0:
+            return ("apply_errored left status=%d post-step class=%d along-step set=%d; expected errored (3), tracking cut (3), "
+                    "no along-step action" % (o[0], o[1], o[3]))
+    if k == "statuscheck":
+        # registry facts the acceptance theorem (table_ok) relies on
+        ords = [o[2 + 2 * j] for j in range(9)]
+        want = {0: 11, 1: 14, 2: 9, 3: 11, 4: 14, 5: 14, 6: 11, 7: 7, 8: 7}
+        bad = [(j, ords[j]) for j in want if ords[j] != want[j]]
+        if bad:
+            return ("action registry orders differ from the ones the StatusChecker acceptance theorem assumes "
+                    "(class index, StepActionOrder): %r" % bad)
+        # the checker must not reject a transition of a conforming step (same status, same actions)
+        if (c["ps"], c["pp"], c["pa"]) == (c["cs"], c["cp"], c["ca"]) and c["cs"] in (2, 4) and c["cp"] >= 0 and c["ca"] >= 0 \
+                and 4 < c["order"] < 13 and o[0] != 0:
+            return "StatusCheckExecutor rejected an unchanged conforming state with code %d" % o[0]
     if k == "steplimit":
         cur = c["s0"]
         for i, (s, a) in enumerate(c["seq"]):
